@@ -414,20 +414,32 @@ op_rule!(op_1, op_1_5, alt((tag("||"), tag_no_case("or"))));
 
 rule!(op_if(i) -> Value, {
     map(
-        alt((
-            nom_tuple((
-                preceded(tag("if"),op_0),
-                preceded(ws(tag("then")),op_0),
-                preceded(ws(tag("else")),op_0),
-            )) ,
-            nom_tuple((
-                terminated(op_1,ws(tag("?"))),
-                terminated(op_0,ws(tag(":"))),
-                op_0
-            )) ,
-        )),
+        nom_tuple((
+            preceded(tag("if"),op_0),
+            preceded(ws(tag("then")),op_0),
+            preceded(ws(tag("else")),op_0),
+        )) ,
         |(cond, yes, no)| {
             If::make_call(cond, yes, no).into()
+        }
+    )
+});
+
+// "cond ? yes : no" or just "cond": the condition is parsed once, then the optional branches.
+// (Trying the whole ternary first and the plain expression second parsed every parenthesised
+// sub-expression twice per nesting level, i.e. exponential time in the nesting depth.)
+rule!(op_cond(i) -> Value, {
+    map(
+        nom_tuple((
+            op_1,
+            opt(nom_tuple((
+                preceded(ws(tag("?")),op_0),
+                preceded(ws(tag(":")),op_0),
+            )))
+        )),
+        |(cond, rest)| match rest {
+            Some((yes, no)) => If::make_call(cond, yes, no).into(),
+            None => cond,
         }
     )
 });
@@ -458,7 +470,7 @@ rule!(op_0 -> Value, {
     alt((
         op_if,
         op_let,
-        op_1
+        op_cond
     ))
 });
 
